@@ -57,10 +57,11 @@ const (
 	tkFileUpperScheme
 	tkFileEscaped
 	tkStdStream // the special names "stdout" and "stderr"
+	tkEmpty     // "": names nothing that can be opened
 	nTargetKinds
 )
 
-var c19kindNames = [...]string{"zsim", "zsim-fails", "file-url", "bare-path", "file-localhost", "missing-dir", "is-a-dir", "invalid-url", "unknown-scheme", "upper-case-scheme", "relative-path", "file-upper-case-scheme", "file-escaped-path", "stdout/stderr"}
+var c19kindNames = [...]string{"zsim", "zsim-fails", "file-url", "bare-path", "file-localhost", "missing-dir", "is-a-dir", "invalid-url", "unknown-scheme", "upper-case-scheme", "relative-path", "file-upper-case-scheme", "file-escaped-path", "stdout/stderr", "empty-string"}
 
 var c19badURLs = []string{
 	"file://user:pw@localhost%s",
@@ -100,7 +101,7 @@ type c19sink struct {
 func (w *c19world) target(g *zsim.Stream, f *zsim.Stream) *c19target {
 	w.n++
 	t := &c19target{}
-	t.kind = g.Weighted(5, 2, 3, 2, 1, 1, 1, 2, 1, 1, 1, 1, 1, 1)
+	t.kind = g.Weighted(5, 2, 3, 2, 1, 1, 1, 2, 1, 1, 1, 1, 1, 1, 1)
 	name := fmt.Sprintf("t%d", w.n)
 	switch t.kind {
 	case tkSim, tkSimFail, tkUpperScheme:
@@ -171,6 +172,12 @@ func (w *c19world) target(g *zsim.Stream, f *zsim.Stream) *c19target {
 			t.raw, t.std = "stderr", os.Stderr
 		}
 		t.ok = true
+	case tkEmpty:
+		// an empty entry (an unset variable in a templated configuration): a
+		// configured destination that can receive nothing, so the operation
+		// cannot succeed with it
+		t.raw = ""
+		w.c.Fault("file-open-error")
 	case tkMissingDir:
 		t.raw = pick(g, "file://", "") + filepath.Join(w.dir, "no-such-dir", name+".log")
 		w.c.Fault("file-open-error")
